@@ -1014,6 +1014,17 @@ pub fn plan(property: &'static str, tier: &str) -> Plan {
             ));
         }
     }
+    // scripted histories: a worker with jobs of two keys queued behind its active one reports completion and dies
+    // right away, the pool grows (so that keys hash differently), the first key is dispatched again: the jobs of one
+    // key still run in submission order, one at a time (schedules explored: the death may overtake the report)
+    if property == "C14" || thorough {
+        for script in ["D0,D1,D0,KF0,R2,D0", "D1,D0,D1,KF0,R2,D1", "D0,D2,D0,KF0,R2,D0", "D2,D0,D2,KF0,R2,D2", "D1,D2,D1,KF0,R2,D1", "D2,D1,D2,KF0,R2,D2", "D0,D1,D0,KF0,R3,D0", "D1,D0,D1,KF0,R3,D1", "D2,D1,D2,KF0,R3,D2"] {
+            cfgs.push((
+                Cfg { routing: Routing::KeyPersistent, discard: Discard::None, workers: 1, depth: script.split(',').count(), ttl: false, lean: true, burst: false, queue: QueueKind::Default, set_limit: false, flow_only: false, fine_deaths: false, script: Some(script), slow_stops: false, late_handler: false, dynamic_to: None },
+                if thorough { 2 } else { 1 },
+            ));
+        }
+    }
     // a Dynamic discard limit that its controller lowers at the factory's first ping tick: the workers' own queues
     // (worker-queued routing) and the factory queue follow the new limit
     if property == "C15" || thorough {
@@ -1044,6 +1055,13 @@ pub fn plan(property: &'static str, tier: &str) -> Plan {
                 }
                 cfgs.push((Cfg { routing: r, discard: d, workers: 1, depth: if thorough { 5 } else { 4 }, ttl: false, lean: true, burst: false, queue: QueueKind::Default, set_limit: false, flow_only: false, fine_deaths: false, script: None, slow_stops: true, late_handler: false, dynamic_to: None }, 0));
             }
+        }
+    }
+    // the same with two workers: dispatches routed to the lingering worker are parked for its replacement, and a
+    // shrink that covers its slot arrives before its death is reported
+    if property == "C13" || thorough {
+        for r in [Routing::KeyPersistent, Routing::RoundRobin, Routing::Sticky] {
+            cfgs.push((Cfg { routing: r, discard: Discard::None, workers: 2, depth: if thorough { 5 } else { 4 }, ttl: false, lean: true, burst: false, queue: QueueKind::Default, set_limit: false, flow_only: false, fine_deaths: false, script: None, slow_stops: true, late_handler: false, dynamic_to: None }, 0));
         }
     }
     // the discard limit changes under way (UpdateSettings)
